@@ -242,7 +242,11 @@ C16 = [
 ]
 
 CALL = 'pharmpy/workflows/dispatchers/local_dask/call.py'
+RUN = 'pharmpy/workflows/dispatchers/local_dask/run.py'
 C17 += [
+    ('cancelled-run-not-caught', RUN,
+     "                        except dask.distributed.client.FutureCancelledError:\n                            res = None",
+     "                        except ZeroDivisionError:\n                            res = None", None),
     ('context-test-uses-startswith', WF,
      "        if parameters and parameters[0] == 'context':",
      "        if parameters and parameters[0].startswith('context'):", None),
